@@ -19,7 +19,15 @@ OBJECT_ATTRS = {
 
 
 def instance_attr_stores(repo):
-    """class name -> set of attribute names stored on instances anywhere in the package."""
+    """class name -> set of attribute names stored on instances anywhere in the package (cached per Repo)."""
+    cached = getattr(repo, "_attr_stores_cache", None)
+    if cached is not None:
+        return cached
+    repo._attr_stores_cache = _instance_attr_stores(repo)
+    return repo._attr_stores_cache
+
+
+def _instance_attr_stores(repo):
     stores = {}
     dynamic = set()  # classes with setattr(self, <computed>, ...)
     for f in repo.all_functions():
